@@ -92,14 +92,14 @@ ClipReqI(c, n, t0, rows, d) ==
 (* Where an array must be produced at all.  load_recording / load_clip:    *)
 (* always ("for every clip").  resample / compute_spectrogram: only where  *)
 (* the request is realisable and float rounding cannot matter: at least    *)
-(* one output sample; hop >= 1 sample, hop <= window, window <= source     *)
-(* length, on exact units.                                                 *)
+(* one output sample; hop >= 1 sample, window >= 1 sample (the hop may be   *)
+(* longer than the window), window <= source length, on exact units.       *)
 (***************************************************************************)
 MustProduceN(c, srcOk, srcN) ==
     CASE c.kind \in {"rec", "clip"} -> TRUE
       [] c.kind = "resamp" -> srcOk /\ srcN >= 2 /\ (srcN * c.target >= 2 * Sr(c) \/ (ExactCo(c) /\ srcN * c.target >= Sr(c)))
       [] c.kind = "spec"   -> /\ srcOk /\ Exact(c)
-                              /\ c.h * Sr(c) >= c.tden /\ c.h <= c.w
+                              /\ c.h * Sr(c) >= c.tden /\ c.w * Sr(c) >= c.tden
                               /\ (c.w * Sr(c)) \div c.tden <= srcN
 
 (***************************************************************************)
@@ -110,7 +110,9 @@ MustProduceN(c, srcOk, srcN) ==
 (***************************************************************************)
 ImplNum(c, srcN) == (srcN * c.target) \div Sr(c)                 \* int(times.size * target_samplerate * step)
 ImplNp0(c)       == (c.w * Sr(c)) \div c.tden                    \* int(window_size * samplerate)
-ImplNov(c)       == ((c.w - c.h) * Sr(c)) \div c.tden            \* int((window_size - hop_size) * samplerate), hop <= window
+\* int((window_size - hop_size) * samplerate): int() truncates towards zero, so a hop longer than the window gives
+\* noverlap = -floor((h - w) * sr) <= 0; scipy then leaves gaps: frames are nperseg - noverlap samples apart
+ImplNov(c)       == IF c.w >= c.h THEN ((c.w - c.h) * Sr(c)) \div c.tden ELSE 0 - (((c.h - c.w) * Sr(c)) \div c.tden)
 ImplNp(c, srcN)  == Min(ImplNp0(c), srcN)                        \* scipy _triage_segments: nperseg <= input length
 ImplSpecRaises(c, srcN) == ImplNp0(c) < 1 \/ ImplNov(c) >= ImplNp(c, srcN)
 \* zero extension by nperseg/2 on both sides, zero padding to a whole number of hops, one frame per hop
@@ -241,7 +243,7 @@ Holds(cl, o) ==
       [] cl = "FirstResult/TimeWithinStep" -> \A x \in Reobs(r, "derived") : AxisWithin(r.reobs[x])
       [] cl = "FirstResult/TimeStart"      -> \A x \in Reobs(r, "derived") : StartsAtSource(r.reobs[x], c)
       [] cl = "Drift/SpecShape" ->
-            (c.kind = "spec" /\ Exact(c) /\ r.src_ok /\ r.src_n >= 1 /\ c.h <= c.w) =>
+            (c.kind = "spec" /\ Exact(c) /\ r.src_ok /\ r.src_n >= 1) =>
                IF ImplSpecRaises(c, r.src_n) THEN ~ok
                ELSE ok /\ Len(r.axes) = 2 /\ r.axes[1].n = ImplFrames(c, r.src_n) /\ r.axes[2].n = ImplBins(c, r.src_n)
       [] cl = "Drift/ResampleNum" ->
